@@ -50,3 +50,12 @@ Definition check_count (fb : flat) : bool :=
 Definition accepted_count_of (fb : flat) : nat := length (accepted_tseqs fb).
 Definition check_accepted_count (fb : flat) : bool :=
   accepted_count_of fb =? length (all_valid (code_sem fb)).
+
+(** * Interface notions of the theorems *)
+(** the trial sequence of a key (the empty sequence when decoding fails) *)
+Definition cand_tseq (fb : flat) (k : key) : tseq :=
+  match decode_key fb k with Some cand => tseq_of_run fb cand | None => [] end.
+(** what [__sample] keeps of a drawn key *)
+Definition key_accepted (fb : flat) (k : key) : bool :=
+  match decode_key fb k with Some cand => accepts fb cand | None => false end.
+Definition accepted_keys (fb : flat) : list key := filter (key_accepted fb) (keys_of fb).
